@@ -63,7 +63,7 @@ def _configs(tier, salts):
                         out.append((c2, {"depth": 0}))
     # the broad option bank: every evaluation index x three fault kinds (all kinds in thorough)
     for salt in salts:
-        if salt != 0 and tier == "quick":
+        if salt != 0 and (tier == "quick" or salt > 1):
             continue
         for name, cfg in cfgs.broad_cfgs(salt=salt, probs=("nzr",) if tier == "quick" else ("rosen", "nzr"), budgets=(30,), reg_budgets=(7,),
                                          overlays=("soft",) if tier == "quick" else ("soft", "avg")):
